@@ -112,7 +112,7 @@ def gen_filters(rng, spec):
     return [[gen_filter1(rng, spec) for _ in range(rng.choice([1, 2]))] for _ in range(2)]
 
 
-KINDS = ["to_pandas"] * 4 + ["slice"] * 2 + ["index", "slice_only", "iter", "head", "statistics", "count", "columns", "pickle"]
+KINDS = ["to_pandas"] * 4 + ["slice"] * 2 + ["index", "slice_only", "slice_stats", "iter", "head", "statistics", "count", "columns", "pickle"]
 
 
 def gen_op(rng, spec, kind=None):
@@ -129,7 +129,7 @@ def gen_op(rng, spec, kind=None):
             op["categories"] = rng.choice([["c"], {"c": 3}, []])
         if rng.random() < 0.15:
             op["index"] = False
-    if kind in ("slice", "slice_only"):
+    if kind in ("slice", "slice_only", "slice_stats"):
         op["i"] = rng.choice([None, 0, 1, -1, rng.randrange(-nrg, nrg + 1)])
         op["j"] = rng.choice([None, 1, 2, -1, rng.randrange(-nrg, nrg + 1)])
         op["step"] = rng.choice([None, None, 1, 2, -1])
@@ -173,15 +173,11 @@ class Solo:
     def __call__(self, op):
         k = okey(op)
         if k not in self.cache:
-            try:
-                self.cache[k] = with_alarm(60, conc.solo_result, self.path, op)
-                if self.cache[k][:2] == ["EXC", "TimeoutError"] and "did not return within" in str(self.cache[k][2]):
-                    raise TimeoutError(self.cache[k][2])        # the alarm went off inside the operation's own try/except
-            except TimeoutError as e:
-                self.cache[k] = ["EXC", "TimeoutError", str(e)]
-                if self.ctx is not None:
+            self.cache[k] = conc.solo_pristine(self.path, op, 60)
+            if self.cache[k][:2] == ["EXC", "TimeoutError"] if isinstance(self.cache[k], list) else False:
+                if "did not return within" in str(self.cache[k][2]) and self.ctx is not None:
                     self.ctx.fail({"component": "shared-handle", "op": op["op"], "symptom": "hang", "mode": "alone"},
-                                  {"mode": "sequence", "dataset": self.spec, "ops": [op]}, "%s does not return even when run alone: %s" % (k, e))
+                                  {"mode": "sequence", "dataset": self.spec, "ops": [op]}, "%s does not return even when run alone: %s" % (k, self.cache[k][2]))
                     raise Hung("%s alone" % k)
         return self.cache[k]
 
@@ -298,6 +294,12 @@ def run(ctx):
         lap("storm_after_broken_premise")
 
 
+def _worker_init():
+    """start of every worker process (nothing executed yet): fork its pristine solo server"""
+    conc.SOLO_SERVER[0] = None
+    conc.start_solo_server()
+
+
 def _any_job(job):
     return _fp_job(job) if job["phase"] == "footprint" else _job(job)
 
@@ -410,7 +412,7 @@ def merge_extra(dst, src):
 def apply_jobs(ctx, jobs, job_timeout, func=None):
     """run the jobs in forked workers; replay what they recorded onto the real context; a worker that died or hung
     is a failure of the property (the job is the replay); an exception inside the harness is a broken check"""
-    results = C.pmap(func or _job, jobs, nproc=min(8, len(jobs)), job_timeout=job_timeout)
+    results = C.pmap(func or _job, jobs, init=_worker_init, nproc=min(8, len(jobs)), job_timeout=job_timeout)
     values = []
     for job, res in zip(jobs, results):
         if isinstance(res, dict) and "__crashed__" in res:
@@ -462,7 +464,8 @@ def fixed_ops(spec):
         return ops
     ops = [{"op": "to_pandas"}, {"op": "to_pandas", "columns": spec["cols"][:2], "index": False}, {"op": "to_pandas", "columns": spec["cols"][-1:]},
            {"op": "slice", "i": 0, "j": 1}, {"op": "slice_only", "i": 1, "j": None}, {"op": "index", "i": -1}, {"op": "iter"},
-           {"op": "head", "n": 3}, {"op": "statistics"}, {"op": "count"}, {"op": "columns"}, {"op": "pickle"}]
+           {"op": "head", "n": 3}, {"op": "statistics"}, {"op": "count"}, {"op": "columns"}, {"op": "pickle"},
+           {"op": "slice_stats", "i": 0, "j": 1}]
     for c in sorted(spec["numeric"])[:2]:
         ops[2] = {"op": "to_pandas", "filters": [[c, ">=", spec["numeric"][c][1]]]}
         ops[9] = {"op": "count", "filters": [[c, "<", spec["numeric"][c][1]]]}
@@ -487,6 +490,7 @@ FIXED_OPS = [
     {"op": "to_pandas", "columns": ["i", "t"], "filters": [["t", ">=", {"dt": "2020-01-01T20:00"}]]},
     {"op": "count", "filters": [["t", "<", {"dt": "2020-01-02T03:00"}], ["s", ">=", "r2"]]},
     {"op": "slice", "i": 0, "j": 2, "filters": [["t", ">", {"dt": "2020-01-01T05:00"}]]},
+    {"op": "slice_stats", "i": 1, "j": None},
 ]
 
 
@@ -506,7 +510,7 @@ def _fp_job(job):
     for op in ops:
         pf = warm if warm is not None else ParquetFile(path)
         try:
-            want = with_alarm(120, conc.solo_result, path, op)
+            want = conc.solo_pristine(path, op, 120)
             if isinstance(want, list) and want[:2] == ["EXC", "TimeoutError"] and "did not return within" in str(want[2]):
                 raise TimeoutError(want[2])
         except TimeoutError as e:
@@ -735,7 +739,7 @@ def forced_search(ctx, datasets, rng, quick, budget=None):
         # writers first: operations that write shared state, preempted right after each write
         cand = []
         for a in pool:
-            if a["op"] in ("to_pandas", "iter", "head", "slice", "count", "statistics", "pickle", "index", "slice_only"):
+            if a["op"] in ("to_pandas", "iter", "head", "slice", "count", "statistics", "pickle", "index", "slice_only", "slice_stats"):
                 cand.append(a)
         rng.shuffle(cand)
         for a in cand:
@@ -1061,6 +1065,7 @@ def replay(rep):
     """Re-execute a recorded case on the real code (real threads) and print what the property observes."""
     import random
     C.use_shadow()
+    conc.start_solo_server()        # pristine process for the solo results, forked before anything is executed here
     if rep.get("kind") == "no-failing-input-found":
         print(json.dumps(rep, indent=1)[:6000])
         return 1
